@@ -7,6 +7,7 @@ import z3
 from . import asp as A
 from . import bridge as bridge_mod
 from . import driver
+from . import cliagree
 from .checks_common import generic_replay
 from .fol import text as ftext
 from .sem import Ctx, asp_preds, fol_preds, fol_size
@@ -48,6 +49,12 @@ def skeletons(T):
         ('constraint-arity2', A.rule(None, [q('q', T, T)])),
         ('prop-choice', A.rule(A.choice('p'), ['not ' + q('q', T)])),
     ]
+
+
+CLI_PROGRAMS = ['p(X) :- q(X).', 'p(X + 1) :- q(X), not r(X, X).', '{p(X)} :- q(X), X = 1..3.', ':- p(X), q(X), X != a.',
+                'p(1..3). q(X) :- p(X), not not r(X).', 'p(-X) :- q(X). p(X / 2) :- q(X), X \\ 2 = 0.', 'p(a). q(b) :- p(a), a < b.',
+                's :- not s. t(X, Y) :- r(X, Y), X < Y, not p(Y).', 'p(X) :- X = 1..n, not q(X).', 'q(#inf). q(#sup) :- q(#inf).',
+                'p(2 * 3 / 2). r(3 * 3 \\ 2).', 'p(Z) :- q(-Z), r(Z1, -Z1).']
 
 
 def generate(tier, seed):
@@ -143,6 +150,8 @@ def generate(tier, seed):
         T1, T2 = rnd.choice(levels[1]), rnd.choice(levels[1] + levels[0])
         (f1, p1), (f2, p2) = rnd.choice(skeletons(T1)), rnd.choice(skeletons(T2))
         add('two-rules', p1 + '\n' + p2)
+    for prog in CLI_PROGRAMS:
+        items.append({'family': 'cli-agreement', 'program': prog, 'cli': True})
     return items
 
 
@@ -190,6 +199,9 @@ def check_program(b, item, op='tau_star', timeout_ms=6000):
 
 def check_item(item):
     b = bridge_mod.get()
+    if item.get('cli'):
+        r = cliagree.translate(b, item['family'], item['program'], item['program'], 'tau-star')
+        return [r] if r else []
     prog = item['program']
     base = {'family': item['family'], 'key': prog, 'input': prog, 'twin': item.get('twin', False)}
     try:
@@ -337,7 +349,7 @@ def replay(r):
 
 def describe(tier):
     return {
-        'rule': 'programs built from 15 rule skeletons (every head kind, arity 0-2, positive/negated/doubly negated body '
+        'rule': 'CLI agreement: 12 programs through `anthem translate --with tau-star` must print/save byte for byte what the library call returns; programs built from 15 rule skeletons (every head kind, arity 0-2, positive/negated/doubly negated body '
                 'literals, comparisons) with a term of operator depth <=1 (exhaustive over 6 leaves / 7 operators) or depth 2 '
                 '(seeded in quick, exhaustive in thorough) at the marked position; the same with variables renamed to '
                 'names that collide with the translator\'s fresh names plus a second rule feeding V1/V2/V3/Z1/I into the '
